@@ -30,7 +30,7 @@ NEEDED_FEATURES = [
     "filters", "mixed_discrete", "two_cont_choices", "two_cont_states", "stochastic",
     "stoch_multi_dep", "period_transition", "period_utility", "period_filter",
     "period_constraint", "leave_above", "leave_below", "log_grid", "aux_params",
-    "constraint_params", "poison", "excluded_states", "two_stochastic", "horizon_ge_11", "axis_ge_150", "three_cont_states", "int_utility",
+    "constraint_params", "poison", "excluded_states", "two_stochastic", "horizon_ge_11", "axis_ge_150", "three_cont_states", "int_utility", "stateless",
 ]
 
 
@@ -67,6 +67,10 @@ def plan(tier, seed):
     for i in range(8 if tier == "quick" else 80):
         cases.append({"kind": "generic", "template": "int_utility", "index": 1 + i, "seed": [seed, 8, i], "cfg": "quick",
                       "jit_false": i % 4 == 0, "env": {"VERIF_X64": "1" if i % 4 else "0"}})
+    # models without state variables (scalar value arrays)
+    for i in range(6 if tier == "quick" else 60):
+        cases.append({"kind": "generic", "template": "stateless", "index": 1 + 2 * i, "seed": [seed, 9, i], "cfg": "quick",
+                      "jit_false": i % 3 == 0, "env": {"VERIF_X64": "1"}})
     # values of -inf that are legitimately part of the solution (utility -inf in some states),
     # reached with positive probability from some rows and with probability exactly 0 from others
     for i in range(10 if tier == "quick" else 120):
